@@ -47,6 +47,12 @@ CHECKS = {
  "C13": ("fault_enumeration", "fault enumeration: every truncation length, every k-th source operation failing, short-read schedules",
          "For generated valid files (reference encoder) every truncation of .shp and .shx, every failing read/seek of a full traversal and several short-read schedules are run against a model derived from the independent encoder's record offsets.",
          "Fault model = errors / short counts returned by the source's Read/Seek methods.", "DESIGN.md §3 C13"),
+ "C07": ("exploration", "structured fuzzing in supervised worker processes: exhaustive field x boundary-value grid and every truncation/extension over generated valid files, proptest mutation stacks and raw bytes; libFuzzer targets complement it",
+         "Every reader entry point is driven over each generated input under catch_unwind with overflow checks and debug assertions on; panics, aborts (observed by the supervising parent) and iterators exceeding an input-size-derived item cap are violations.",
+         "Trusted: the item cap as the finite stand-in for 'runs forever'; a violation confined to one magic 32-bit value that is neither a boundary value nor derived from another field can be missed.", "DESIGN.md §3 C07"),
+ "C17": ("exploration", "structured fuzzing with a counting global allocator (thread-local window around every reader call); dedicated generator of mutually consistent but unbacked counts",
+         "Peak bytes requested during any single reader call must stay <= 64 x input + 16 KiB on every input of the C07 families and on files whose declared counts, record length, header length and index entry agree with each other but are not backed by data.",
+         "Trusted: the harness allocator sees every request of the executing thread; sources are borrowed in-memory slices so only the library allocates.", "DESIGN.md §3 C17"),
  "C01": ("exploration", "property-based testing (proptest, seeded, shrinking): write->read round trip with an explicit normalisation model",
          "Generated shape sequences of all 13 types are written through ShapeWriter and read back through every route (generic/typed x iterate/collect/random access x with/without .shx x memory/disk); an oracle built from accessor views as f64 bit patterns decides equality. Bounded random exploration, not proof.",
          "Trusted: proptest generators, the accessor view of constructed values; ring roles asserted only where the signed area is exactly computable and non-zero.", "DESIGN.md §3 C01"),
